@@ -4,6 +4,7 @@ import (
 	"gonum.org/v1/gonum/floats"
 	"gonum.org/v1/gonum/stat"
 	"math"
+	"sort"
 )
 
 // Floats provides descriptive statistics on a slice of float64 values
@@ -52,7 +53,7 @@ func (x Floats) Median() float64 {
 	if len(x) == 0 {
 		return math.NaN()
 	}
-	return stat.Quantile(0.5, stat.Empirical, x, nil)
+	return stat.Quantile(0.5, stat.Empirical, x.sorted(), nil)
 }
 
 // Q25 is the 25% quantile
@@ -60,7 +61,7 @@ func (x Floats) Q25() float64 {
 	if len(x) == 0 {
 		return math.NaN()
 	}
-	return stat.Quantile(0.25, stat.Empirical, x, nil)
+	return stat.Quantile(0.25, stat.Empirical, x.sorted(), nil)
 }
 
 // Q75 is the 75% quantile
@@ -68,7 +69,15 @@ func (x Floats) Q75() float64 {
 	if len(x) == 0 {
 		return math.NaN()
 	}
-	return stat.Quantile(0.75, stat.Empirical, x, nil)
+	return stat.Quantile(0.75, stat.Empirical, x.sorted(), nil)
+}
+
+// sorted returns a sorted copy of the values: stat.Quantile requires sorted input and the receiver must stay untouched
+func (x Floats) sorted() []float64 {
+	s := make([]float64, len(x))
+	copy(s, x)
+	sort.Float64s(s)
+	return s
 }
 
 // Variance returns the variance of the values in the slice
